@@ -53,16 +53,11 @@ var c15Kinds = []string{
 
 func (C15) Cases(t core.Tier) int {
 	n := len(c15Bounds) * (c15DeltaHi - c15DeltaLo + 1) * len(c15Kinds) * 2
-	if t == core.Thorough {
-		n += len(c15Large)
-	} else {
-		n += 2
-	}
-	return n
+	return n + len(c15Large) + c15JumpCases(t)
 }
-func (C15) Exhaustive(t core.Tier) bool { return true }
+func (C15) Exhaustive(t core.Tier) bool { return t == core.Thorough } // quick samples the jump-distance table
 func (C15) Rule() string {
-	return "Fault = capacity exhaustion: before the statement under test the data segment is filled (with nil entries, as a long session would have filled it with constants) to B+delta for B in {2^15, 2^16}. Enumerated completely in both tiers: B x delta in -14..+3 x 14 statement kinds (literals, global name references, calls, if/while/for nil placeholders, function values, strings, arrays, writes, a function with a loop) x REPL/script flavour = 1008 cases, so every data-segment entry a statement creates lands on both sides of each boundary; plus large-body cases (functions with 2^15-2..2^15+2 locals, if/while/function bodies around 2^15 instructions; 2 of them in quick, all in thorough). Seeded runs add generated sessions with the fill placed at a drawn point and delta in -60..+20. Oracle: either compilation is refused before any instruction of the statement runs (an error or a compile-time panic), or (i) every operand of every newly emitted instruction decodes to an in-range address (DS index in [0,len(DS)), jump target in [0,len(CS)], function entry inside CS, local index below the local count) and (ii) value, output and error class equal those of a twin session with no fill. Non-trivial = the statement's new DS entries or jumps straddle or exceed a boundary. Distinct = (boundary, delta, kind, flavour) or hash of the generated session."
+	return "Fault = capacity exhaustion: before the statement under test the data segment is filled (with nil entries, as a long session would have filled it with constants) to B+delta for B in {2^15, 2^16}. Enumerated completely in both tiers: B x delta in -14..+3 x 14 statement kinds (literals, global name references, calls, if/while/for nil placeholders, function values, strings, arrays, writes, a function with a loop) x REPL/script flavour = 1008 cases, so every data-segment entry a statement creates lands on both sides of each boundary; plus 10 large-body cases (functions with 2^15-2..2^15+2 locals, bodies of about 2^15 statements) in both tiers; plus jump-distance cases: 14 templates (if taken/skipped, if-else with the long branch taken/skipped on either side, while run 0/1/3 times, function body called/not called, for body, iterator body, wide units) whose statement is made exactly L instructions long for L = limit+d, limit in {2^15-1, 2^16-1}, using locals only and no literal in the repeated unit so that only the back-patched jump distance grows: d in -3..+9 enumerated completely in thorough (364 cases), 9 (limit, d) pairs per template in quick (126 cases), each with a closed-form expected value. Seeded runs add generated sessions with the fill placed at a drawn point and delta in -60..+20. Oracle: either compilation is refused before any instruction of the statement runs (an error or a compile-time panic), or (i) every operand of every newly emitted instruction decodes to an in-range address (DS index in [0,len(DS)), jump target in [0,len(CS)], function entry inside CS, local index below the local count) and (ii) value, output and error class equal those of a twin session with no fill. Non-trivial = the statement's new DS entries or jumps straddle or exceed a boundary. Distinct = (boundary, delta, kind, flavour) or hash of the generated session."
 }
 func (C15) Assumptions() []string {
 	return []string{
@@ -243,6 +238,9 @@ func (C15) RunCase(i int) core.Result {
 	var r core.Result
 	nd := c15DeltaHi - c15DeltaLo + 1
 	table := len(c15Bounds) * nd * len(c15Kinds) * 2
+	if i >= table+len(c15Large) {
+		return c15JumpCase(i - table - len(c15Large))
+	}
 	if i >= table {
 		lc := c15Large[i-table]
 		h := &Hist{Flavour: "repl", Notes: "large body: " + lc.name}
@@ -344,5 +342,149 @@ func (C15) RunScript(raw json.RawMessage) core.Result {
 	var target int
 	fmt.Sscan(sc.Want[0], &target)
 	c15One(sc.Steps[:len(sc.Steps)-1], target, sc.Steps[len(sc.Steps)-1], sc.Flavour == "repl", &r, h)
+	return r
+}
+
+// ---- jump-distance cases: a body of n one-line units sized so that the back-patched jump over it
+// lands on each side of the 2^15 and 2^16 limits of the operand field.
+
+type c15JumpTpl struct {
+	name       string
+	head, tail string
+	unit       string
+	want       func(n int) string
+}
+
+// Every template is one function definition plus its call; the body works on locals and uses no
+// literals inside the repeated unit, so the data segment stays small and only the jump distance
+// grows. flip(n) is the value of x after n units `x = ~x`.
+func flip(n int) string {
+	if n%2 == 0 {
+		return "0"
+	}
+	return "-1"
+}
+
+const c15Unit = "x = ~x\n"
+
+var c15JumpTpls = []c15JumpTpl{
+	{"if-true", "{\nf = () -> {\nx = 0\nk = 0\nif k == 0 {\n", "}\nx\n}\nf()\n}", c15Unit, flip},
+	{"if-false", "{\nf = () -> {\nx = 0\nk = 0\nif k == 1 {\n", "}\nx\n}\nf()\n}", c15Unit, func(int) string { return "0" }},
+	{"ifelse-long-else-taken", "{\nf = () -> {\nx = 0\nk = 0\nif k == 1 {\nx = 5\n} else {\n", "}\nx\n}\nf()\n}", c15Unit, flip},
+	{"ifelse-long-else-skipped", "{\nf = () -> {\nx = 0\nk = 0\nif k == 0 {\nx = 5\n} else {\n", "}\nx\n}\nf()\n}", c15Unit, func(int) string { return "5" }},
+	{"ifelse-long-then-taken", "{\nf = () -> {\nx = 0\nk = 0\nif k == 0 {\n", "} else {\nx = 5\n}\nx\n}\nf()\n}", c15Unit, flip},
+	{"ifelse-long-then-skipped", "{\nf = () -> {\nx = 0\nk = 0\nif k == 1 {\n", "} else {\nx = 5\n}\nx\n}\nf()\n}", c15Unit, func(int) string { return "5" }},
+	{"while-once", "{\nf = () -> {\nx = 0\nk = 0\nwhile k == 0 {\nk = 1\n", "}\nx\n}\nf()\n}", c15Unit, flip},
+	{"while-never", "{\nf = () -> {\nx = 0\nk = 0\nwhile k == 1 {\n", "}\nx\n}\nf()\n}", c15Unit, func(int) string { return "0" }},
+	{"while-three-times", "{\nf = () -> {\nx = 0\nk = 0\nwhile k < 3 {\nk = k + 1\n", "}\nx\n}\nf()\n}", c15Unit, func(n int) string { return flip(3 * n) }},
+	{"function-body", "{\nf = () -> {\nx = 0\n", "x\n}\nf()\n}", c15Unit, flip},
+	{"function-body-not-called", "{\nk = 7\nf = () -> {\nx = 0\n", "x\n}\nk\n}", c15Unit, func(int) string { return "7" }},
+	{"for-body", "{\nf = () -> {\nx = 0\nfor i <- fromto(0, 1) {\n", "}\nx\n}\nf()\n}", c15Unit, flip},
+	{"for-iterator-body", "{\ng = () -> {\nx = 0\n", "yield x\n}\nf = () -> {\ns = 9\nfor e <- g() {\ns = e\n}\ns\n}\nf()\n}", c15Unit, flip},
+	{"if-true-wide-units", "{\nf = () -> {\nx = 0\nk = 0\nif k == 0 {\n", "}\nx\n}\nf()\n}", "x = ~(~(~x))\n", flip},
+}
+
+var c15JumpDeltas = []int{-3, -2, -1, 0, 1, 2, 3, 4, 5, 6, 7, 8, 9}
+
+// quick samples the table (the large programs cost seconds each); thorough enumerates it.
+var c15JumpQuick = [][2]int{{0, 0}, {0, 2}, {0, 3}, {0, 4}, {0, 5}, {0, 6}, {0, 8}, {1, 2}, {1, 6}}
+
+func c15JumpCases(t core.Tier) int {
+	if t == core.Thorough {
+		return len(c15JumpTpls)*len(c15JumpQuick) + len(c15JumpTpls)*2*len(c15JumpDeltas)
+	}
+	return len(c15JumpTpls) * len(c15JumpQuick)
+}
+
+// c15Pad is a one-instruction statement (a local-to-local move) that leaves x alone; pads fix the
+// parity of the body length so that every instruction count around the limit is reached.
+const c15Pad = "y = x\n"
+
+func c15JumpSrc(t c15JumpTpl, n, pads int) string {
+	return t.head + strings.Repeat(c15Pad, pads) + strings.Repeat(t.unit, n) + t.tail
+}
+
+// c15UnitCost compiles the template at small sizes and returns instructions per unit, per pad,
+// and the instruction count of the version with 10 units and no pad.
+func c15UnitCost(t c15JumpTpl) (per, pad, base10 int, ok bool) {
+	size := func(n, p int) int {
+		s := sess.New()
+		c0 := len(s.CS)
+		o := s.Submit(c15JumpSrc(t, n, p)+"\n", true)
+		if len(o) != 1 || o[0].Kind != sess.KValue {
+			return -1
+		}
+		return len(s.CS) - c0
+	}
+	a, b, c := size(10, 0), size(20, 0), size(10, 1)
+	if a < 0 || b <= a || (b-a)%10 != 0 || c <= a {
+		return 0, 0, 0, false
+	}
+	return (b - a) / 10, c - a, a, true
+}
+
+func c15JumpCase(i int) core.Result {
+	var r core.Result
+	var d, li int
+	if i < len(c15JumpTpls)*len(c15JumpQuick) {
+		// the quick sample comes first in the numbering, so quick case i and thorough case i agree
+		q := c15JumpQuick[i%len(c15JumpQuick)]
+		li, d = q[0], q[1]
+		i /= len(c15JumpQuick)
+	} else {
+		i -= len(c15JumpTpls) * len(c15JumpQuick)
+		d = c15JumpDeltas[i%len(c15JumpDeltas)]
+		i /= len(c15JumpDeltas)
+		li = i % 2
+		i /= 2
+	}
+	limit := []int{1<<15 - 1, 1<<16 - 1}[li]
+	t := c15JumpTpls[i%len(c15JumpTpls)]
+	h := &Hist{Flavour: "repl"}
+	r.NonTrivial = true
+	r.Key = uint64(core.NewHash().Str(t.name).Int(limit).Int(d))
+	r.Sample = h
+	per, pad, base10, ok := c15UnitCost(t)
+	if !ok {
+		r.Discard = "template " + t.name + " did not evaluate at small sizes"
+		return r
+	}
+	// The whole statement is made exactly limit+d instructions long (units of `per` instructions
+	// plus one-instruction pads for the remainder). The jump over the body is a few instructions
+	// shorter than the statement, so the deltas -3..+9 put the jump distance on both sides of
+	// the limit, one instruction at a time, whatever the template's overhead.
+	total := limit + d
+	pads := 0
+	for (total-(base10-10*per)-pads*pad)%per != 0 {
+		pads++
+	}
+	n := (total - (base10 - 10*per) - pads*pad) / per
+	src := c15JumpSrc(t, n, pads)
+	h.Notes = fmt.Sprintf("jump-distance case %s: %d units of %d instruction(s) and %d pad(s) of %d, statement is %d instructions, operand limit %d", t.name, n, per, pads, pad, total, limit)
+	h.add(trunc(src, 160) + " ...")
+	s := sess.New()
+	s.Budget = 50_000_000
+	cs0 := len(s.CS)
+	o := s.Submit(src+"\n", true)[0]
+	r.Statements++
+	r.Instructions += o.Steps
+	r.TraceHash = uint64(core.NewHash().Str(o.Kind).Str(o.Val))
+	r.Inc(fmt.Sprintf("F9.jump_distance_near_%d.%s", limit+1, t.name), 1)
+	want := t.want(n)
+	switch {
+	case o.Kind == sess.KPanic && (o.Phase == "compile" || o.Phase == "parse"):
+		r.Inc("refused_at_compile_time", 1)
+		if o.Steps > 0 {
+			r.Violation = &core.Violation{Clause: "executed-before-refusal", Detail: "instructions ran before refusal", History: h}
+		}
+	case decodeCheck(s, cs0) != "":
+		r.Violation = &core.Violation{Clause: "operand-wrapped", Detail: decodeCheck(s, cs0) + " (accepted: " + o.Brief() + ")", History: h}
+	case o.Kind == sess.KPanic:
+		r.Violation = &core.Violation{Clause: "run-panic", Detail: o.Err, History: h}
+	case o.Kind != sess.KValue || o.Val != want:
+		r.Violation = &core.Violation{Clause: "large-body-result", Detail: fmt.Sprintf("%s with %d units: got %s, want %s", t.name, n, o.Brief(), want), History: h}
+	default:
+		r.Inc("accepted_and_equal", 1)
+	}
 	return r
 }
